@@ -251,6 +251,20 @@ func TestReplay(t *testing.T) {
 	}
 	rec := h.Begin("C18", "replay")
 	switch part := h.ReplayPart(p); part {
+	case "receiver":
+		var c RCase
+		if err := h.LoadReplay(p, &c); err != nil {
+			t.Fatal(err)
+		}
+		rec.MarkCurrent(c)
+		// the loss depends on a random choice inside select: repeat
+		for i := 0; i < 200; i++ {
+			o := runRCase(c)
+			if o.Fail != nil || i == 199 {
+				rec.Report(t, c, o)
+				return
+			}
+		}
 	case "seq":
 		var c SeqCase
 		if err := h.LoadReplay(p, &c); err != nil {
